@@ -15,6 +15,7 @@ package app
 // nodes' upstream/peer transports.
 
 import (
+	"context"
 	"fmt"
 	"math"
 	"sort"
@@ -27,6 +28,7 @@ import (
 
 	"github.com/honeycombio/refinery/config"
 	"github.com/honeycombio/refinery/internal/verifkit"
+	"github.com/honeycombio/refinery/types"
 )
 
 // c16Keep is the documented deterministic stress-relief rule restated: hash
@@ -50,7 +52,7 @@ type c16Span struct {
 func TestVerif_C16(t *testing.T) {
 	run := verifkit.Start(t, "C16", "cluster")
 	defer run.Finish()
-	run.Rule("a case = one 2-3 node cluster (PRNG: stress SamplingRate 0|1|2|3|5|50, BatchTimeout 5-50ms, MaxBatchSize 1-50, normal sampler keep-all or drop-all; case 0 mod 4 is fixed to SamplingRate 1 + drop-all normal sampler, case 2 mod 4 to SamplingRate 0|1|2|50 + drop-all) and 30-50 traces whose spans arrive in three phases on PRNG-chosen nodes: first spans while stressed, more spans while still stressed, late spans after relief ended (with or without waiting for the upstream batches to be dispatched first), plus fresh traces after relief; non-trivial when a trace first seen under stress is observed; distinct = (rate, rule decision, entered on owner / non-owner / both, has later stressed spans, has late spans after relief)")
+	run.Rule("a case = one 2-3 node cluster (PRNG: stress SamplingRate 0|1|2|3|5|50, BatchTimeout 5-50ms, MaxBatchSize 1-500, normal sampler keep-all or drop-all; case 0 mod 4 is fixed to SamplingRate 1 + drop-all normal sampler, case 2 mod 4 to SamplingRate 0|1|2|50 + drop-all) and 30-50 traces whose spans arrive in three phases on PRNG-chosen nodes: first spans while stressed, more spans while still stressed, late spans after relief ended (with or without waiting for the upstream batches to be dispatched first), plus fresh traces after relief; non-trivial when a trace first seen under stress is observed; distinct = (rate, rule decision, entered on owner / non-owner / both, has later stressed spans, has late spans after relief)")
 	run.Assume("expected decision = wyhash(traceID, 34527861234) <= MaxUint64/SamplingRate, restated in the harness from the StressRelief documentation/code constant")
 	run.Assume("stress relief is switched on all nodes between phases while no client request is outstanding and no peer request is queued")
 
@@ -58,7 +60,7 @@ func TestVerif_C16(t *testing.T) {
 		nNodes := 2 + rng.Intn(2)
 		rate := verifkit.Pick(rng, uint64(1), 2, 2, 3, 5, 50)
 		batchTimeout := time.Duration(rng.Range(5, 50)) * time.Millisecond
-		maxBatch := verifkit.Pick(rng, 1, 2, 5, 20, 50)
+		maxBatch := verifkit.Pick(rng, 1, 2, 5, 20, 50, 500)
 		normalKeepsAll := rng.Bool()
 		compress := rng.Bool()
 		waitUpstreamBeforeRelief := rng.Bool()
@@ -75,9 +77,9 @@ func TestVerif_C16(t *testing.T) {
 		lru := ci%4 == 3
 		switch ci % 4 {
 		case 0:
-			rate, normalKeepsAll = 1, false
+			rate, normalKeepsAll, maxBatch = 1, false, 500 // 500 = the production default MaxBatchSize
 		case 2:
-			rate, normalKeepsAll = verifkit.Pick(rng, uint64(0), 1, 2, 50), false
+			rate, normalKeepsAll, maxBatch = verifkit.Pick(rng, uint64(0), 1, 2, 50), false, 500
 		case 3:
 			rate, normalKeepsAll = 1, false
 		}
@@ -289,8 +291,9 @@ func TestVerif_C16(t *testing.T) {
 		}
 		// ---- first-use bursts (all strata but "lru"): K clients released together post
 		// the first spans this node ever sends to a brand-new dataset
+		stuckPeer := int64(0)
 		if !lru {
-			rounds, k := 30, 8
+			rounds, k := 12, 8
 			var burst []*traceInfo
 			for r := 0; r < rounds; r++ {
 				node := rng.Intn(nNodes)
@@ -342,10 +345,49 @@ func TestVerif_C16(t *testing.T) {
 					return
 				}
 			}
+			// The same burst without the HTTP layer in front, so that the goroutines are
+			// really simultaneous: K goroutines released by a barrier call
+			// Collector.ProcessSpanImmediately - what Router.processEvent calls from each
+			// request goroutine while stressed - with the first spans for a new dataset.
+			for r := 0; r < run.N(150, 50); r++ {
+				node := rng.Intn(nNodes)
+				n := cl.Nodes[node]
+				key := verifkit.Pick(rng, keys...)
+				ds := fmt.Sprintf("c16-direct-%d-%d", ci, r)
+				start := make(chan struct{})
+				var wg sync.WaitGroup
+				for g := 0; g < k; g++ {
+					tr := &traceInfo{id: fmt.Sprintf("c16-%d-direct%d-%d-%s", ci, r, g, rng.Hex(8)), key: key, dataset: ds}
+					id := tr.id + "/d"
+					sp := e2Span{ID: id, TraceID: tr.id, Time: now, Fields: map[string]any{"name": "direct"}}
+					spans[id] = &c16Span{span: sp, entry: node, phase: 2, key: key, dataset: ds, manual: true}
+					tr.ids[2] = append(tr.ids[2], id)
+					burst = append(burst, tr)
+					ev := &types.Event{Context: context.Background(), APIHost: cl.Honey.URL(), APIKey: key, Dataset: ds, Timestamp: now, Data: types.NewPayload(n.Cfg, sp.Data())}
+					if err := ev.Data.ExtractMetadata(); err != nil {
+						t.Fatalf("harness: %v", err)
+					}
+					span := &types.Span{Event: ev, TraceID: tr.id, IsRoot: true}
+					wg.Add(1)
+					go func() {
+						defer wg.Done()
+						<-start
+						n.Collector.ProcessSpanImmediately(span)
+					}()
+				}
+				close(start)
+				wg.Wait()
+			}
 			traces = append(traces, burst...)
-			if !cl.WaitPeerTrafficDrained() {
-				run.Inconclusive("peer traffic did not drain after the bursts")
-				return
+			// a probe orphaned in a peer transmission would keep this counter up for ever;
+			// that is no concern of this property, later waits discount it
+			deadline := time.Now().Add(5 * time.Second)
+			for cl.Sum("libhoney_peer_queued_items") != 0 && time.Now().Before(deadline) {
+				time.Sleep(2 * time.Millisecond)
+			}
+			stuckPeer = cl.Sum("libhoney_peer_queued_items")
+			if stuckPeer < 0 {
+				stuckPeer = 0
 			}
 			run.Count("first_use_burst_spans", int64(len(burst)))
 		}
@@ -355,7 +397,7 @@ func TestVerif_C16(t *testing.T) {
 			// went out". If the queues do not empty (events stuck in a transmission show
 			// up as missing spans below) the case simply goes on with the other schedule.
 			deadline := time.Now().Add(5 * time.Second)
-			for cl.Sum("libhoney_upstream_queued_items") != 0 || cl.Sum("libhoney_peer_queued_items") != 0 {
+			for cl.Sum("libhoney_upstream_queued_items") != 0 || cl.Sum("libhoney_peer_queued_items") > stuckPeer {
 				if time.Now().After(deadline) {
 					run.Count("upstream_drain_wait_gave_up", 1)
 					break
@@ -378,7 +420,7 @@ func TestVerif_C16(t *testing.T) {
 			run.Inconclusive("a batch was not accepted: " + f)
 			return
 		}
-		if !cl.WaitPeerTrafficDrained() {
+		if !cl.WaitPeerTrafficDrainedTo(stuckPeer) {
 			run.Inconclusive("peer traffic did not drain after relief")
 			return
 		}
